@@ -473,6 +473,24 @@ pub mod fs {
             log_op("read", path, 0, Some("crash".into()), &Ok(()));
             crash_now();
         }
+        // injected failure of the compare-read (the file exists but cannot be read)
+        let injected = ctx::with(|c| {
+            let nth = c.out_reads;
+            c.out_reads += 1;
+            c.faults.iter().find_map(|f| match f {
+                Fault::OutRead { nth: n, kind } if *n == nth => Some(kind.clone()),
+                _ => None,
+            })
+        })
+        .flatten();
+        if let Some(kind) = injected {
+            if path.exists() {
+                ctx::fired(&format!("out_read_fail:{kind:?}"));
+                let r: io::Result<Vec<u8>> = Err(kind.to_error());
+                log_op("read", path, 0, Some(format!("out_read_fail:{kind:?}")), &unit(&r));
+                return r;
+            }
+        }
         let r = std::fs::read(path);
         log_op("read", path, r.as_ref().map(|b| b.len() as u64).unwrap_or(0), None, &unit(&r));
         r
